@@ -46,7 +46,7 @@ PLAN = {
 
 def variants_for(wl, tier):
     # measured: 'auto'/'auto' workloads (36 fits per run) 519 ms per run, explicit lists 39 ms per run
-    n = 40 if wl["kwargs"].get("method") == "auto" and wl["kwargs"].get("weight") == "auto" else 300
+    n = 30 if wl["kwargs"].get("method") == "auto" and wl["kwargs"].get("weight") == "auto" else 300
     return n if tier == "quick" else n * 6
 
 
